@@ -26,7 +26,32 @@ func runC18(c *ctx, cfgNames []string) []procOut {
 			defer wg.Done()
 			logBase := filepath.Join(c.scratch, "out", "race-"+cn)
 			env := []string{"GORACE=halt_on_error=0 log_path=" + logBase + " history_size=4"}
+			// cold starts: fresh processes whose first library operations are concurrent (lazy initialisation under
+			// contention); their race reports land in the same log set
+			nCold := 4
+			if c.tier == "thorough" {
+				nCold = 16
+			}
+			var coldViol []violation
+			var coldEvals int64
+			for k := 0; k < nCold; k++ {
+				cc := configs[cn]
+				cpo := c.runConfig(cc, 8, []string{"-coldstart"}, env, fmt.Sprintf("+cold%d", k))
+				if cpo.res != nil {
+					coldViol = append(coldViol, cpo.res.Violations...)
+					coldEvals += cpo.res.Evaluations
+				}
+			}
 			po := c.runConfig(configs[cn], 8, nil, env, "")
+			if po.res != nil {
+				po.res.Violations = append(po.res.Violations, coldViol...)
+				po.res.NViolations += int64(len(coldViol))
+				po.res.Evaluations += coldEvals
+				if po.res.Histo == nil {
+					po.res.Histo = map[string]int64{}
+				}
+				po.res.Histo["coldstart/processes"] += int64(nCold)
+			}
 			files, _ := filepath.Glob(logBase + ".*")
 			type rep struct {
 				key, text string
